@@ -126,7 +126,9 @@ pub fn do_libdis(bytes: &[u8]) -> String {
         Ok(m) => match std::panic::catch_unwind(|| m.disassemble()) {
             Ok(t) => {
                 let a = std::panic::catch_unwind(|| m.assemble().len());
-                format!("OK:{} asm={}", hexs(&t), a.map(|n| n.to_string()).unwrap_or("PANIC".into()))
+                let lines: Vec<String> = m.all_inst_iter().map(|i| hexs(&i.disassemble())).collect();
+                format!("OK:{} asm={} M={} I={}", hexs(&t), a.map(|n| n.to_string()).unwrap_or("PANIC".into()),
+                        module_text(&m).replace(' ', "~"), lines.join(","))
             }
             Err(_) => "PANIC:disassemble".into(),
         },
